@@ -43,7 +43,7 @@ type typeTable struct {
 func canonTypeExpr(p *packages.Package, fd *ast.FuncDecl, e ast.Expr, depth int) string {
 	info := p.TypesInfo
 	e = unparen(e)
-	if depth > 6 {
+	if depth > 14 {
 		return exprString(e)
 	}
 	switch x := e.(type) {
